@@ -98,6 +98,11 @@ impl TokenBucket {
     }
 
     fn refill(&mut self, now: LocalTime) {
+        // Nb. The clock is not guaranteed to be monotonic. If it went backwards, no time
+        // has elapsed since the last refill, and `duration_since` would panic.
+        if now < self.refilled_at {
+            return;
+        }
         let elapsed = now.duration_since(self.refilled_at);
         let tokens = elapsed.as_secs() as f64 * self.rate;
 
